@@ -71,6 +71,9 @@ type RunSpec struct {
 	Strategy         string   `json:"strategy,omitempty"`
 	Choices          []string `json:"choices,omitempty"` // replay: entity chosen at each step
 	RandSeed         int64    `json:"rand_seed,omitempty"`
+	// Before: edges the very same project value had when it was walked (and cycle-checked) just before
+	// this run; its depends_on were then rewritten in place to Edges (same services)
+	Before [][2]int `json:"before"`
 }
 
 func name(i int) string { return fmt.Sprintf("s%d", i) }
@@ -109,7 +112,7 @@ func (rs *RunSpec) project() *types.Project {
 }
 
 func (rs *RunSpec) key() string {
-	return fmt.Sprintf("n=%d e=%v opt=%v rev=%v max=%d roots=%v fail=%v hooks=%v/%s", rs.N, rs.Edges, fmt.Sprint(rs.Optional, rs.OptionalDisabled), rs.Reverse, rs.Max, rs.Roots, rs.Fail, rs.Hooks, rs.Strategy)
+	return fmt.Sprintf("n=%d e=%v opt=%v rev=%v max=%d roots=%v fail=%v hooks=%v/%s", rs.N, fmt.Sprint(rs.Edges, " before=", rs.Before), fmt.Sprint(rs.Optional, rs.OptionalDisabled), rs.Reverse, rs.Max, rs.Roots, rs.Fail, rs.Hooks, rs.Strategy)
 }
 
 // deps[a] = services a depends on; closure etc. computed independently of compose-go.
@@ -342,6 +345,18 @@ func execute(rs *RunSpec, choose chooser) (out outcome) {
 	c := sched.New()
 	m := newMonitor(rs)
 	proj := rs.project()
+	if rs.Before != nil {
+		// one project value with a history: walked with other dependencies, then edited in place
+		first := *rs
+		first.Edges, first.Before, first.Fail, first.Roots = rs.Before, nil, nil, nil
+		proj = first.project()
+		graph.SetVerifHook(nil)
+		_ = graph.InDependencyOrder(context.Background(), proj, func(context.Context, string, types.ServiceConfig) error { return nil })
+		_ = graph.CheckCycle(proj)
+		for name, svc := range rs.project().Services {
+			proj.Services[name] = svc
+		}
+	}
 	snapshot := rs.project()
 	hookSeen := map[string]int{}
 	var hmu sync.Mutex
@@ -654,6 +669,9 @@ func run(s *core.Shard) {
 				}
 				for _, rev := range []bool{false, true} {
 					rs := &RunSpec{N: n, Edges: ee, Reverse: rev, Max: int(mask % 3)}
+					if mask%3 == 2 { // the cycle was introduced in place after the project had been walked without it
+						rs.Before = [][2]int{}
+					}
 					if mask%3 == 1 { // the refusal leaves the project alone, optional dependencies included
 						rs.Optional, rs.OptionalDisabled = []int{mask % n}, []int{(mask / 3) % n}
 					}
@@ -702,6 +720,14 @@ func run(s *core.Shard) {
 					if s.Thorough() && f.n >= 2 {
 						// two failing visits
 						r.dfs(&RunSpec{N: f.n, Edges: es, Reverse: rev, Max: max, Fail: []int{0, f.n - 1}}, 60)
+					}
+					if f.n >= 2 && f.n <= 4 && (s.Thorough() || (mask+max)%4 == 1) {
+						// the same project value walked before with other dependencies (another DAG, or none)
+						other := edgesOf(ps, (mask*7+3)%(1<<len(ps)))
+						if !acyclic(f.n, other) || len(other) == 0 {
+							other = [][2]int{}
+						}
+						r.dfs(&RunSpec{N: f.n, Edges: es, Reverse: rev, Max: max, Before: other}, s.Pick(10, 40))
 					}
 					if s.Thorough() || (mask+max)%3 == 0 {
 						// an optional dependency on an unknown service, on a service disabled by profiles, or both
